@@ -275,6 +275,17 @@ def run_shard(job: dict[str, Any]) -> dict[str, Any]:
                 t, p = open_client(kind, addr, proto, lg)
                 p.echo(nonce="hold")
                 held.append(t)
+            # clients that connect while every slot is taken and hang up without ever being served
+            for _g in range(case.get("ghosts", 2)):
+                if kind == "unix":
+                    g = socket.socket(socket.AF_UNIX, socket.SOCK_STREAM)
+                    g.connect(addr["path"])
+                else:
+                    g = socket.create_connection((addr["host"], addr["port"]))
+                time.sleep(0.05)
+                g.close()
+            time.sleep(0.3)
+            chk.hit("ghost_clients_gave_up_while_queued", case.get("ghosts", 2))
             done = threading.Event()
             box: dict[str, Any] = {}
 
@@ -312,7 +323,7 @@ def run_shard(job: dict[str, Any]) -> dict[str, Any]:
 
 def main(tier: str, seed: int) -> int:
     chk = Check(PID, tier, seed, rule=RULE)
-    chk.require("trace_equal_to_solo", "overlap_observed", "occupancy_checked", "extra_client_waited_then_served", "state_runs_checked")
+    chk.require("trace_equal_to_solo", "overlap_observed", "occupancy_checked", "extra_client_waited_then_served", "state_runs_checked", "ghost_clients_gave_up_while_queued")
     quick = tier == "quick"
     rng = random.Random(seed)
     cases = []
